@@ -19,7 +19,9 @@ RULE = ("case = solver configuration (grammar: zoo or random; constraint from a 
         "grammar -- universal/existential string (in)equalities, str.len / str.to.int comparisons with arithmetic, "
         "prefix/suffix/contains, count with literal and with numeric quantifier, structural predicates over two "
         "quantified nodes, match expressions binding children, nested 'in', definition-use, Boolean combinations, random "
-        "low-depth formulas; settings: free/SMT instantiation limits, optimized Z3 queries, unique trees, insertion "
+        "low-depth formulas, a numeric condition on a node next to a condition on one of its parts; 30% of the cases are "
+        "conjunctions (rarely disjunctions) of two templates, half of them a tree-shaping conjunct (count, str.to.int, "
+        "str.len) next to a node-constraining one; settings: free/SMT instantiation limits, optimized Z3 queries, unique trees, insertion "
         "methods and result limit, global fuzzer, start symbol; rseed); solve() is called up to 10 times and EVERY "
         "returned tree is judged when it is returned: no open leaves, valid derivation tree rooted in the (requested) "
         "start symbol, string in the language (harness recogniser), constraint satisfied under the reference "
